@@ -363,11 +363,15 @@ def ioprio_c_facts(src):
     if not use or not re.search(r"_Py_PARSE_PID\s*\"ii\"\s*,\s*&pid\s*,\s*&ioclass\s*,\s*&iodata", body):
         raise NotRecognised("psutil_proc_ioprio_set not recognised")
     pre = body[:use.start()]
+    excs = set()
 
     def guard(var):
         # `if (... var < LO ... var > HI ...) { ... PyExc_… ... return NULL; }` before the shift
-        for m in re.finditer(r"if\s*\((.*?)\)\s*\{[^}]*PyExc_\w+[^}]*return\s+NULL\s*;[^}]*\}", pre, re.S):
+        for m in re.finditer(r"if\s*\((.*?)\)\s*\{([^}]*PyExc_(\w+)[^}]*)\}", pre, re.S):
             cond = m.group(1)
+            if "return" not in m.group(2):
+                continue
+            excs.add(m.group(3))
             lo = re.search(r"\b%s\s*<\s*([^|&]+?)\s*(?:\|\||$)" % var, cond)
             hi = re.search(r"\b%s\s*>\s*([^|&]+?)\s*(?:\|\||$)" % var, cond)
             if lo and hi:
@@ -377,7 +381,10 @@ def ioprio_c_facts(src):
         if re.search(r"\b%s\s*[<>]" % var, pre):
             raise NotRecognised("comparison on %s not understood" % var)
         return None
-    return shift, guard("ioclass"), guard("iodata")
+    g1, g2 = guard("ioclass"), guard("iodata")
+    if len(excs) > 1 or (excs and not excs <= {"ValueError", "OSError"}):
+        raise NotRecognised("range check raises %s" % sorted(excs))
+    return shift, g1, g2, excs == {"OSError"}
 
 
 def ionice_py_facts(tree):
@@ -584,6 +591,7 @@ def facts(snap, F):
     F.try_add("ioprioShift", "Nat", lambda: lean_nat(ic()[0]), "IOPRIO_CLASS_SHIFT")
     F.try_add("ioprioCGuard", "Option (Int × Int)", lambda: lean_opt_pair(ic()[1]), "C-side range check on ioclass before the shift")
     F.try_add("ioprioCDataGuard", "Option (Int × Int)", lambda: lean_opt_pair(ic()[2]), "C-side range check on iodata")
+    F.try_add("ioprioCGuardOSError", "Bool", lambda: lean_bool(ic()[3]), "the C-side range check raises OSError(EINVAL) (true) / ValueError (false)")
     F.try_add("ioprioPyClassGuard", "Option (Int × Int)", lambda: lean_opt_pair(ip()[2]), "ionice_set(): interval ioclass is restricted to (none = any int)")
     F.try_add("ioprioPyValueRange", "Int × Int", lambda: "(%s, %s)" % (lean_int(ip()[1][0]), lean_int(ip()[1][1])), "ionice_set(): value range")
     F.try_add("ioprioPyNoValueClasses", "List Int", lambda: lean_list(ip()[0], lean_int), "ionice_set(): classes that accept no value")
